@@ -124,7 +124,11 @@ def build_data(form, samples, tags, vseed):
         if r.random() < 0.5:
             # a field of its own in about every other call: a refused re-write of an index usually names other
             # fields than the stored sample has, and must leave none of them behind
-            data["aa_extra"] = tags[0] * 3
+            # (the writer visits the fields in the order of the dict: half of the time the new field comes first)
+            if r.random() < 0.5:
+                data = dict([("aa_extra", tags[0] * 3)] + list(data.items()))
+            else:
+                data["aa_extra"] = tags[0] * 3
             exp[tags[0]]["aa_extra"] = tags[0] * 3
         return samples[0], data, exp
     if form == "dict":
@@ -148,7 +152,10 @@ def build_data(form, samples, tags, vseed):
             dd["opt"] = leaf_o
             exp[t]["opt"] = eo[0]
         if r.random() < 0.5:
-            dd["aa_extra"] = t * 3
+            if r.random() < 0.5:
+                dd = dict([("aa_extra", t * 3)] + list(dd.items()))
+            else:
+                dd["aa_extra"] = t * 3
             exp[t]["aa_extra"] = t * 3
         data.append(dd)
     return list(samples), data, exp
